@@ -342,6 +342,8 @@ void _mzd_compress_l(mzd_t *A, rci_t r1, rci_t n1, rci_t r2) {
   wi_t block;
 
   for (rci_t i = r1 + r2; i < A->nrows; ++i) {
+    /* bits beyond the last column belong to the parent of a window: keep them */
+    word const keep = mzd_row(A, i)[A->width - 1] & ~A->high_bitmask;
 
     rci_t j = r1;
 
@@ -391,6 +393,7 @@ void _mzd_compress_l(mzd_t *A, rci_t r1, rci_t n1, rci_t r2) {
        which deals with last few bits. */
 
     for (; j < n1 + r2; j += m4ri_radix) { row[j / m4ri_radix] = 0; }
+    row[A->width - 1] = (row[A->width - 1] & A->high_bitmask) | keep;
   }
 
 #endif
